@@ -162,11 +162,54 @@ def _load(name: str) -> Optional[Dict]:
         return None
 
 
+def with_command_actions(cfg: Dict, rng: Rng, per_host: int = 3) -> Dict:
+    """The RL agent's (generated) action map plus TERMINAL COMMAND actions with real credentials, per host: `node-send-local-command` whose
+    command is a request handled on that node — the user-session-manager's own `remote_login` / `remote_logout` handlers (reached by no
+    standard action), file creation, a service verb, an OS scan —, `node-session-remote-login` to another host followed by
+    `node-send-remote-command` (file creation / user-session-manager request over the session), and a wrong-password variant. These are the
+    handlers that build their answer from `RequestResponse.from_bool` and then fill in `data`."""
+    cfg = copy.deepcopy(cfg)
+    pa = envrig.proxy_agent_cfg(cfg)
+    if pa is None:
+        return cfg
+    amap = pa.setdefault("action_space", {}).setdefault("action_map", {0: {"action": "do-nothing", "options": {}}})
+    hosts = [n for n in cfg.get("simulation", {}).get("network", {}).get("nodes", []) if n.get("type") in ("computer", "server") and n.get("ip_address")]
+    if not hosts:
+        return cfg
+    new: List[Dict] = []
+    for h in rng.shuffle(list(hosts))[:4]:
+        users = [(u["username"], u["password"]) for u in (h.get("users") or []) if "username" in u and "password" in u] + [("admin", "admin")]
+        other = rng.choice([o for o in hosts if o is not h] or [h])
+        ou = ([(u["username"], u["password"]) for u in (other.get("users") or []) if "username" in u and "password" in u] + [("admin", "admin")])[0]
+        user, pw = rng.choice(users)
+        local = [["service", "user-session-manager", "remote_login", ou[0], ou[1], str(h["ip_address"])],
+                 ["service", "user-session-manager", "remote_login", user, "wrong-" + pw, str(other["ip_address"])],
+                 ["service", "user-session-manager", "remote_logout", "no-such-session"],
+                 ["file_system", "create", "file", "downloads", f"c04_{rng.below(1000)}.txt", "False"],
+                 ["file_system", "create", "folder", f"c04dir{rng.below(100)}"],
+                 ["os", "scan"]]
+        for cmd in rng.shuffle(local)[:per_host] + [local[0]]:
+            new.append({"action": "node-send-local-command", "options": {"node_name": h["hostname"], "username": user, "password": pw, "command": cmd}})
+        new.append({"action": "node-send-local-command", "options": {"node_name": h["hostname"], "username": user, "password": "wrong-" + pw, "command": local[-1]}})
+        new.append({"action": "node-session-remote-login", "options": {"node_name": h["hostname"], "username": ou[0], "password": ou[1], "remote_ip": str(other["ip_address"])}})
+        for cmd in (["file_system", "create", "file", "downloads", f"c04r_{rng.below(1000)}.txt", "False"],
+                    ["service", "user-session-manager", "remote_logout", "no-such-session"]):
+            new.append({"action": "node-send-remote-command", "options": {"node_name": h["hostname"], "remote_ip": str(other["ip_address"]), "command": cmd}})
+    k = max(amap) + 1 if amap else 0
+    for i, a in enumerate(new):
+        amap[k + i] = a
+    return cfg
+
+
 def _aug(cfg: Dict, rng: Rng, n: int) -> Dict:
     try:
-        return envrig.augmented(cfg, rng, n) or cfg
+        out = envrig.augmented(cfg, rng, n) or cfg
     except Exception:
-        return cfg
+        out = cfg
+    try:
+        return with_command_actions(out, rng.fork("commands"))
+    except Exception:
+        return out
 
 
 AIR_ACTIONS = {"node-network-service-recon", "node-nmap-ping-scan", "node-nmap-port-scan", "node-session-remote-login", "node-send-remote-command"}
@@ -231,6 +274,59 @@ def snapshot_import_only(inv) -> Dict[str, str]:
     return out
 
 
+_SNAP: Dict[str, Tuple[str, Any]] = {}          # import-only inventory object -> (fingerprint at import, deep copy at import)
+_RESTORED: Dict[str, Tuple[str, str]] = {}      # what `restore_import_only` found mutated (reported as import-only-global-mutated)
+
+
+def snapshot_import_only_objects(inv) -> None:
+    """taken once, before any environment exists in this process (and inherited by the forked workers)"""
+    for name, e in inv.entries.items():
+        if e["writers"] or e["kind"] == "module-logger":
+            continue
+        try:
+            obj = _resolve(name)
+            fp = _finger(obj)
+        except Exception:
+            continue
+        try:
+            cp = copy.deepcopy(obj)
+        except Exception:
+            cp = None
+        _SNAP[name] = (fp, cp)
+
+
+def restore_import_only() -> None:
+    """Hook of `normalise_process_state`: an import-only object that an earlier run of this process MUTATED (that is a violation by itself and
+    is recorded as such) is put back IN PLACE to its import-time content, so that both runs of the next differential start from what a new
+    interpreter has and the mutation also shows as a behavioural difference instead of hiding in both runs."""
+    for name, (fp, cp) in _SNAP.items():
+        try:
+            obj = _resolve(name)
+            cur = _finger(obj)
+        except Exception:
+            continue
+        if cur == fp:
+            continue
+        _RESTORED.setdefault(name, (fp[:300], cur[:300]))
+        if cp is None:
+            continue
+        try:
+            if isinstance(obj, dict):
+                obj.clear()
+                obj.update(copy.deepcopy(cp))
+            elif isinstance(obj, list):
+                obj[:] = copy.deepcopy(cp)
+            elif isinstance(obj, set):
+                obj.clear()
+                obj.update(copy.deepcopy(cp))
+            elif isinstance(getattr(obj, "__dict__", None), dict):
+                fresh = copy.deepcopy(cp)
+                obj.__dict__.clear()
+                obj.__dict__.update(fresh.__dict__)
+        except Exception:
+            pass
+
+
 def classvars_at_runtime() -> List[str]:
     """`module:Class.attr` of every ClassVar pydantic knows about and every class-body mutable attribute of loaded primaite classes"""
     import sys
@@ -260,6 +356,9 @@ def _prepare_replay():
     global _READ_GLOBALS
     import primaite.game.game  # noqa: F401
     iso.nmne_class_attrs_at_import()
+    if not _SNAP:
+        snapshot_import_only_objects(x_ss.build())
+        iso.NORMALISE_HOOKS.append(restore_import_only)
     if not _READ_GLOBALS:
         _READ_GLOBALS = read_globals(x_ss.build())
     iso.pin_opaque_widths()
@@ -313,6 +412,11 @@ def replay(rec: dict) -> bool:
         _prepare_replay()
         from harness.rigs import isolation_order as iord
         return not iord.monitor_build(rp["cfg"], _READ_GLOBALS, x_ss.build(), lean_roles())["problems"]
+    if rp.get("type") == "import-time-object-in-game":
+        if not isinstance(rp["cfg"], dict) and not rp.get("files"):
+            return False
+        _prepare_replay()
+        return not _import_time_hit(rp, rp["history"])
     if rp.get("type") == "dirty-history":
         if not isinstance(rp["cfg"], dict) and not rp.get("files"):
             return False  # scenario directory copied to a temporary place and not carried by the record: re-run the check instead
@@ -324,6 +428,33 @@ def replay(rec: dict) -> bool:
             return iso.compare_after_history(_write_folder(rp["files"]), history, fresh_resets, later, make=make_env_path)["diff"] is None
         return iso.compare_after_history(rp["cfg"], history, fresh_resets, later)["diff"] is None
     return False  # identity / scheduler / global-mutated records are not re-executable on their own: re-run the check
+
+
+def _import_time_hit(rp: dict, history: List[Any]) -> bool:
+    """construct the environment of the record, apply the operations, look for module-level objects / shared answers in the game"""
+    iso.normalise_process_state()
+    env = make_env_path(_write_folder(rp["files"])) if rp.get("files") else scen.make_env(rp["cfg"])
+    try:
+        iso._apply_history(env, [tuple(x) for x in history])
+        return bool(iso.stray_import_time_objects(env.game, iso.import_time_objects())) or bool(iso.shared_between_history_items(env))
+    finally:
+        try:
+            env.close()
+        except Exception:
+            pass
+
+
+def _shrink_prefix(rp: dict) -> List[Any]:
+    """shortest of a few prefixes of the history that still shows the hit (no operation, one step, the first episode, everything)"""
+    hist = [tuple(x) for x in rp["history"]]
+    first_reset = next((i for i, op in enumerate(hist) if op[0] == "reset"), len(hist))
+    for cand in ([], hist[:1] if hist and hist[0][0] == "step" else [("step", 0)], hist[:first_reset], hist[:first_reset + 2]):
+        try:
+            if _import_time_hit(rp, cand):
+                return cand
+        except Exception:
+            pass
+    return hist
 
 
 def _shrink_schedule(cfg_a, cfg_b, schedule, channels) -> List[Tuple]:
@@ -450,6 +581,8 @@ def _exec_unit(unit: dict) -> Rec:
     for n, v in _W["before"].items():
         if after.get(n) != v:
             rec.changed_globals[n] = (v[:300], str(after.get(n))[:300])
+    rec.changed_globals.update(_RESTORED)     # mutated during the unit and put back by a later normalisation of the same unit
+    _RESTORED.clear()
     rec.wall = time.time() - t0
     return rec
 
@@ -484,6 +617,9 @@ def run(ctx: Ctx):
     ctx.oblige("rig: the role table of Props/C04.lean could be read (readable run-time written globals found)", "correspondence",
                bool(lean_roles()), f"{len(lean_roles())} roles")
     before = snapshot_import_only(inv)
+    snapshot_import_only_objects(inv)
+    if restore_import_only not in iso.NORMALISE_HOOKS:
+        iso.NORMALISE_HOOKS.append(restore_import_only)
     iso.pin_opaque_widths()
     run_tmp = tempfile.mkdtemp(prefix="c04run_")
     _TMP.append(run_tmp)
@@ -688,13 +824,36 @@ def _do_dirty(ctx: Rec, unit: dict):
             ctx.violation({"kind": "shared-mutable-object", "what": what, "type": sh[0]},
                           f"{label}: {len(sh)} mutable objects are reachable from both {what}: {sorted(set(sh))[:6]}",
                           {"type": "identity", "scenario": label, "what": what, "types": sorted(set(sh))[:40]})
-    # the only import-time objects a game may point at are the AirSpaceFrequency constants
-    from primaite.simulator.network.airspace import AirSpaceFrequency
-    freq = iso.reachable(AirSpaceFrequency._registry)
-    g = iso.reachable(r["used"].game)
-    stray = sorted({f"{type(o).__module__}.{type(o).__qualname__}" for i, o in g.items() if i in allowed and i not in freq})
+    # (c') general oracle for objects HANDED OUT from module / class level: the only import-time objects a game may point at are the
+    # AirSpaceFrequency constants; and no two history items share an answer object. Both are evaluated on the dirtied game and on the game of
+    # the last compared episode; a hit is a concrete, re-executable input (construct + the operations so far), shrunk to a short prefix.
+    ops_so_far = list(r["results"][-1]["history"]) + list(r["results"][-1]["later"]) if r["results"] else list(r["history"])
+    stray_all: List[Tuple[str, str]] = []
+    for which, game in (("dirtied game", r["old_game"]), ("game of the last compared episode", r["used"].game)):
+        stray = iso.stray_import_time_objects(game, allowed)
+        stray_all += stray
+        ctx.count("identity:games-checked-for-import-time-objects")
+        if stray:
+            rp = {"type": "import-time-object-in-game", "scenario": label, "cfg": cfg if isinstance(cfg, dict) else str(cfg),
+                  **({} if isinstance(cfg, dict) else {"files": _folder_files(cfg)}), "history": [list(x) for x in ops_so_far], "objects": stray[:10]}
+            try:
+                rp["history"] = [list(x) for x in _shrink_prefix(rp)]
+            except Exception:
+                pass
+            ctx.violation({"kind": "import-time-object-in-game", "type": stray[0][0].split(".")[-1]},
+                          f"{label}: after {len(rp['history'])} operation(s) the {which}'s object graph references mutable object(s) that live at module / "
+                          f"class level and are therefore shared by every episode and every environment of the process: "
+                          + ", ".join(f"{t} = {n}" for t, n in stray[:4]), rp)
+            break
     ctx.oblige(f"identity[{label}]: a game references no import-time mutable object except AirSpaceFrequency constants", "correspondence",
-               not stray, f"{stray[:10]}")
+               not stray_all, f"{stray_all[:10]}")
+    sh = iso.shared_between_history_items(r["used"])
+    ctx.count("identity:history-items-checked", sum(len(a.history) for a in r["used"].game.agents.values()))
+    if sh:
+        ctx.violation({"kind": "history-items-share-an-answer", "type": sh[0].split(" ")[0].split(".")[-1]},
+                      f"{label}: {len(sh)} answer objects are shared between history items of different steps: {sh[:3]}",
+                      {"type": "import-time-object-in-game", "scenario": label, "cfg": cfg if isinstance(cfg, dict) else str(cfg),
+                       **({} if isinstance(cfg, dict) else {"files": _folder_files(cfg)}), "history": [list(x) for x in ops_so_far], "shared": sh[:10]})
     # (d) scheduler
     probs = iso.scheduler_copies(r["used"], [0, 1, r["used"].episode_counter])
     ctx.count("scheduler:checked")
